@@ -476,9 +476,14 @@ class SetOrderLoop:
           note="set_order: distinct positions are assumed to hold distinct frame objects")
 def set_order(vc):
     c, h, old, n, order = ordered_pre(vc)
-    new_order = OrderStr()
-    new_order.length = Int('new_order_len')
-    new_order.f = z3.Function('new_order_char', z3.IntSort(), z3.IntSort())
+    same = bool(vc.choose(2, 'same-order-string-again'))
+    if same:
+        # set_order with the order the cadence already has: the labels may be stale (after deletions / inserts) and must be rewritten all the same
+        new_order = order
+    else:
+        new_order = OrderStr()
+        new_order.length = Int('new_order_len')
+        new_order.f = z3.Function('new_order_char', z3.IntSort(), z3.IntSort())
     vc.assume(new_order.length >= n)
     j = Int('j')
     vc.interp.loop_specs[(OCAD + '.set_order', 0)] = SetOrderLoop(vc, h, new_order, j)
